@@ -58,22 +58,27 @@ def det_poly(nodes, d):
     return p2_sub(p2_mul(ds(px), dt(py)), p2_mul(dt(px), ds(py)))
 
 
+_P2B = {}
+
+
 def power_to_bernstein(poly, m):
     """Bernstein coefficients (degree m) of a bivariate polynomial given in the power basis, by exact
     interpolation at the lattice nodes (unisolvent): solve V c = values"""
-    pts = [(Fr(j, m), Fr(k, m)) for k in range(m + 1) for j in range(m + 1 - k)]
+    if m not in _P2B:
+        pts = [(Fr(j, m), Fr(k, m)) for k in range(m + 1) for j in range(m + 1 - k)]
+        V = []
+        for (s, t) in pts:
+            row = []
+            for k in range(m + 1):
+                for j in range(m + 1 - k):
+                    i = m - j - k
+                    c = factorial(m) // (factorial(i) * factorial(j) * factorial(k))
+                    row.append(c * (1 - s - t) ** i * s ** j * t ** k)
+            V.append(row)
+        _P2B[m] = (pts, X.mat_inv(V))
+    pts, inv = _P2B[m]
     nn = len(pts)
     vals = [p2_eval(poly, s, t) for s, t in pts]
-    V = []
-    for (s, t) in pts:
-        row = []
-        for k in range(m + 1):
-            for j in range(m + 1 - k):
-                i = m - j - k
-                c = factorial(m) // (factorial(i) * factorial(j) * factorial(k))
-                row.append(c * (1 - s - t) ** i * s ** j * t ** k)
-        V.append(row)
-    inv = X.mat_inv(V)
     return [sum(inv[r][c] * vals[c] for c in range(nn)) for r in range(nn)]
 
 
@@ -167,6 +172,156 @@ def pocket(rnd):
     return [power_to_bernstein(px, 3), power_to_bernstein(py, 3)], "pocket (%s,%s) s1=%s c=%s" % (s0, t0, s1, c)
 
 
+# ------------------------------------------------------------------------------------------------------------------
+# PLACED lattice nets (regime E).  det J is built from DIFFERENCES of nodes: it does not change when the element is
+# translated and it scales with the square of the element when the element is scaled.  The verdict may therefore depend
+# neither on where the element sits nor on how large it is - as long as the arithmetic is exact, which is what the
+# property's "lattice nets where the Jacobian polynomial is computed exactly" stands for.  The families below take integer
+# nets N (few bits), a dyadic scale c and an offset o with few significant bits and submit  o + c * N  for graded
+# ratios  element size / distance from the origin = 2^0 .. 2^-32  (and graded absolute sizes at the origin).
+def int_family(rnd, d, kind):
+    """integer analogue of family(): legs of 48 units, node spacing 48/d, perturbations of graded amplitude"""
+    step = 48 // d
+    base = [[], []]
+    for k in range(d + 1):
+        for j in range(d + 1 - k):
+            base[0].append(step * j)
+            base[1].append(step * k)
+    nn = len(base[0])
+    pert = lambda amp: [[x + rnd.randint(-amp, amp) for x in r] for r in base]
+    if kind == "valid":
+        return pert(3)
+    if kind == "marginal":
+        return pert(9)
+    if kind == "folded":
+        out = pert(3)
+        out[0][rnd.randrange(nn)] += rnd.choice([-72, 72])
+        return out
+    if kind == "inverted":
+        out = pert(3)
+        return [out[1], out[0]]
+    if kind == "collinear":
+        return [list(base[0]), list(base[0])]
+    raise ValueError(kind)
+
+
+def quad_jacobian_candidates(N):
+    """numpy int64, vectorised PRE-FILTER only (every candidate is re-examined with the exact pipeline): twice the
+    Bernstein coefficients of det J of n quadratic integer nets N[n, 2, 6]"""
+    ds = 2 * np.stack([N[:, :, 1] - N[:, :, 0], N[:, :, 2] - N[:, :, 1], N[:, :, 4] - N[:, :, 3]], axis=2)
+    dt = 2 * np.stack([N[:, :, 3] - N[:, :, 0], N[:, :, 4] - N[:, :, 1], N[:, :, 5] - N[:, :, 3]], axis=2)
+    cr = lambda i, j: ds[:, 0, i] * dt[:, 1, j] - ds[:, 1, i] * dt[:, 0, j]
+    return np.stack([2 * cr(0, 0), cr(0, 1) + cr(1, 0), 2 * cr(1, 1), cr(0, 2) + cr(2, 0), cr(1, 2) + cr(2, 1), 2 * cr(2, 2)], axis=1)
+
+
+def shallow_folds(rnd, count):
+    """quadratic integer nets that are FOLDED (exact certificate: det J <= 0 somewhere) although every corner Jacobian is
+    positive and every negative Bernstein coefficient of det J is smaller in magnitude than 2/3 of the smallest corner
+    value: the fold is only visible in the sign of coefficients that are small compared with the others.  Found by
+    rejection sampling; the acceptance test is the exact one (det_poly -> power_to_bernstein -> certificate)"""
+    out = []
+    rs = np.random.RandomState(rnd.getrandbits(32))
+    for _ in range(12):
+        bound = rnd.choice([4, 8, 8, 16])
+        N = rs.randint(-bound, bound + 1, size=(150000, 2, 6)).astype(np.int64)
+        B = quad_jacobian_candidates(N)
+        corner = B[:, [0, 2, 5]].min(axis=1)
+        neg = (-B).max(axis=1)
+        for i in np.nonzero((corner > 0) & (neg > 0) & (2 * corner >= 3 * neg))[0][:300]:
+            net = [[Fr(int(x)) for x in r] for r in N[i]]
+            co = power_to_bernstein(det_poly(net, 2), 2)
+            negs = [-v for v in co if v < 0]
+            if min(co[0], co[2], co[5]) > 0 and negs and 2 * min(co[0], co[2], co[5]) >= 3 * max(negs) and certificate(co, 2)[0] == "mixed":
+                out.append([[int(x) for x in r] for r in net])
+                if len(out) >= count:
+                    return out
+    return out
+
+
+def elevate_2_to_3(net):
+    """exact degree elevation of 3 * (quadratic integer net): an integer cubic net of the same map (times 3)"""
+    out = []
+    for row in net:
+        q = {}
+        n = 0
+        for k in range(3):
+            for j in range(3 - k):
+                q[(2 - j - k, j, k)] = 3 * row[n]
+                n += 1
+        r = []
+        for k in range(4):
+            for j in range(4 - k):
+                i = 3 - j - k
+                v = (i * q[(i - 1, j, k)] if i else 0) + (j * q[(i, j - 1, k)] if j else 0) + (k * q[(i, j, k - 1)] if k else 0)
+                assert v % 3 == 0
+                r.append(v // 3)
+        out.append(r)
+    return out
+
+
+def offsets(rnd):
+    """where the element sits: coordinates with at most 31 bits before and 2 bits after the binary point, of graded and
+    of unequal magnitude, either sign, also on an axis (projected map coordinates look like the second one)"""
+    big = lambda b: rnd.choice([-1, 1]) * rnd.randint(2 ** (b - 1), 2 ** b - 1)
+    b = rnd.choice([6, 10, 14, 18, 20, 22, 24, 27, 30])
+    return rnd.choice([
+        (Fr(big(b)), Fr(big(b))),
+        (Fr(rnd.randint(200000, 800000)), Fr(rnd.randint(1000000, 9000000))),
+        (Fr(big(b)), Fr(0)),
+        (Fr(0), Fr(big(b))),
+        (Fr(big(max(b - 12, 3))), Fr(big(b))),
+        (Fr(big(b)) + Fr(rnd.randint(1, 3), 4), Fr(big(b)) - Fr(rnd.randint(1, 3), 4)),
+        (Fr(2 ** b), Fr(-2 ** b)),
+    ])
+
+
+def place(net, scale, off):
+    """off + scale * net, or None when a coordinate is not a binary64 number"""
+    out = [[o + scale * x for x in r] for r, o in zip(net, off)]
+    return out if all(Fr(float(v)) == v for r in out for v in r) else None
+
+
+def ilog2(x):
+    """floor(log2 x) of a positive rational"""
+    e = x.numerator.bit_length() - x.denominator.bit_length()
+    return e if Fr(2) ** e <= x else e - 1
+
+
+def place_at_ratio(rnd, net, ratio_exp, mult=Fr(1)):
+    """the integer net, scaled by mult * 2^e and moved to a random offset so that  (extent of the element) / (largest
+    coordinate) is about 2^-ratio_exp; at the origin ratio_exp + 8 is taken as the absolute size exponent instead"""
+    ext = max(max(r) - min(r) for r in net) or 1
+    for _ in range(20):
+        off = offsets(rnd) if rnd.random() < 0.9 else (Fr(0), Fr(0))
+        far = max(abs(o) for o in off)
+        e = (ilog2(far) if far else 8) - ratio_exp - ilog2(Fr(ext))
+        out = place(net, mult * Fr(2) ** e, off)
+        if out is not None:
+            return out, "off=(%s,%s) scale=%s*2^%d" % (off[0], off[1], mult, e)
+    return None, None
+
+
+def exact_budget(nodes, d):
+    """regime E bit budget.  With every coordinate a multiple of 2^-g below 2^b in magnitude and every difference of two
+    coordinates of a row a multiple of 2^-h below 2^w:  a weighted sum of coordinates with the weights of the derivative
+    of a degree-d triangle at a point with barycentric coordinates in Z/4 (multiples of 1/16, absolute weights summing to
+    <= 2^5) is exact in every order of summation when b + g + 9 <= 53;  the derivative values (d times a convex
+    combination of node differences; the weights sum to zero) are multiples of 2^-(h+4) below 2^(w+2), so products of two
+    of them, their difference and integer combinations of those with absolute weights summing to < 2^10 (change of basis)
+    are exact when 2 (w + h + 6) + 11 <= 53.  Then det J and its Bernstein coefficients are computed without any rounding
+    (degree 3: up to one final division) by every formulation that works with node differences or tabulated derivative
+    weights.  (g, h may be negative.)"""
+    gran = lambda vs: max(v.denominator.bit_length() - 1 - ((v.numerator & -v.numerator).bit_length() - 1) for v in vs)
+    vals = [v for r in nodes for v in r if v]
+    diffs = [v - r[0] for r in nodes for v in r if v != r[0]]
+    if not vals or not diffs:
+        return True
+    g, h = gran(vals), gran(diffs)
+    b = max(ilog2(abs(v)) + 1 for v in vals)
+    w = max(ilog2(abs(v)) + 1 for v in diffs) + 1
+    return b + g + 9 <= 53 and 2 * (w + h + 6) + 11 <= 53
+
+
 def main():
     bezier = C.import_bezier()
     from bezier.hazmat import triangle_helpers as TH
@@ -208,6 +363,51 @@ def main():
                 add("jacobian-polynomial", nodes=G.float_net(rnd, 2, nn, 0), d=d)
         add("guard-degree", nodes=G.int_net(rnd, 2, G.tri_nodes_count(4), 4), d=4)
         add("guard-dimension", nodes=G.int_net(rnd, 3, G.tri_nodes_count(2), 4), d=2)
+        # placed lattice nets: the perturbation families again, anywhere in the plane and at any size (graded ratio
+        # element size / distance from the origin; at the origin graded absolute sizes)
+        for d in (1, 2, 3):
+            for fam in ("valid", "marginal", "folded", "inverted", "collinear"):
+                for _ in range(8 if not thorough else 100):
+                    nodes, tag = place_at_ratio(rnd, int_family(rnd, d, fam), rnd.randint(0, 32))
+                    if nodes is not None:
+                        add("verdict", nodes=nodes, d=d, family="placed-%s:%s" % (fam, tag), lattice=True, placed=True)
+        # shallow folds (degree 2, and the same maps written as degree 3, there also with the middle node moved by one
+        # unit): each shape at one place and at EVERY size of a grid with steps 2^(1/4), from a smallest corner Jacobian of
+        # about 2^-54 (largest coordinate)^2 to about 2^-18 (largest coordinate)^2.  The negative coefficients are
+        # at most 2/3 of the corner values, i.e. 0.58 octaves apart: a verdict that drops coefficients below ANY level
+        # proportional to the square of the coordinates within that range is caught by some size of the grid
+        shapes = shallow_folds(rnd, 5 if not thorough else 30)
+        mults = (Fr(64, 64), Fr(76, 64), Fr(91, 64), Fr(108, 64))
+        for si, shape in enumerate(shapes):
+            for d in (((2, 3, 2, 3, 2)[si % 5],) if not thorough else (2, 3)):
+                net = shape if d == 2 else elevate_2_to_3(shape)
+                if d == 3 and rnd.random() < 0.5:
+                    net[rnd.randrange(2)][5] += rnd.choice([-1, 1])
+                c0 = power_to_bernstein(det_poly([[Fr(x) for x in r] for r in net], d), 2 * d - 2)[0]
+                off = (Fr(0), Fr(0))
+                while not (off[0] or off[1]):
+                    off = offsets(rnd)
+                e0 = ilog2(max(abs(o) for o in off)) - 27 - (ilog2(abs(c0)) // 2 if c0 else 0)
+                for t in range(72):
+                    sc = mults[t % 4] * Fr(2) ** (e0 + t // 4)
+                    nodes = place(net, sc, off)
+                    if nodes is not None:
+                        add("verdict", nodes=nodes, d=d, family="placed-shallow-fold:shape=%d off=(%s,%s) scale=%s" % (si, off[0], off[1], sc),
+                            lattice=True, placed=True)
+        if thorough:
+            for _ in range(600):
+                shape = rnd.choice(shapes)
+                d = rnd.choice((2, 3))
+                net = shape if d == 2 else elevate_2_to_3(shape)
+                nodes, tag = place_at_ratio(rnd, net, rnd.randint(4, 30), rnd.choice(mults) * rnd.choice((1, Fr(9, 8), Fr(7, 8))))
+                if nodes is not None:
+                    add("verdict", nodes=nodes, d=d, family="placed-shallow-fold:" + tag, lattice=True, placed=True)
+        # the Jacobian polynomial itself on placed integer nets (regime E: bit for bit)
+        for d in (2, 3):
+            for _ in range(6 if not thorough else 60):
+                nodes = place(int_family(rnd, d, rnd.choice(("valid", "marginal", "folded"))), Fr(2) ** rnd.randint(0, 3), offsets(rnd))
+                if nodes is not None and all(x.denominator == 1 for r in nodes for x in r) and exact_budget(nodes, d):
+                    add("jacobian-polynomial", nodes=nodes, d=d)
 
     drv = C.Driver()
     midx = []
@@ -254,15 +454,40 @@ def main():
                     if kw.get("lattice") and mout != outcome:
                         res.mismatch("is_valid", rc, outcome, mout, "lattice data: exact arithmetic, verdicts must be identical")
                 size2 = max(abs(x) for r in nodes for x in r) ** 2 or 1
+                placed = bool(kw.get("placed"))
+                sfx = ":placed-lattice-net" if placed else ""
+                clear, jscale = False, None
                 if outcome == "valid" and cert[0] in ("neg", "mixed"):
-                    res.failure("valid-but-jacobian-not-positive", "Triangle.is_valid = True (degree %d, %s) but det J is %s on part of the closed triangle" %
-                                (d, kw["family"], "negative" if cert[0] == "neg" else "non-positive / of both signs"), rc)
+                    res.failure("valid-but-jacobian-not-positive" + sfx, "Triangle.is_valid = True (degree %d, %s) but det J is %s on part of the closed triangle%s" %
+                                (d, kw["family"], "negative" if cert[0] == "neg" else "non-positive / of both signs",
+                                 "" if d == 1 or not placed else "; exact Bernstein coefficients of det J: %s" % [float(v) for v in coeffs]), rc)
                 if outcome == "invalid" and cert[0] == "pos" and cert[1] >= Fr(1, 2 ** 20) * size2:
                     res.failure("invalid-but-jacobian-positive", "Triangle.is_valid = False (degree %d, %s) although det J >= %.3g > 0 on the whole closed triangle" %
                                 (d, kw["family"], float(cert[1])), rc)
+                elif placed and cert[0] in ("pos", "neg"):
+                    # placed lattice nets inside the bit budget: nothing is rounded on the way to the Bernstein coefficients
+                    # of det J, so the margin is judged against det J ITSELF (largest exact coefficient; degree 1: the two
+                    # products of the determinant), not against the square of the coordinates
+                    if d == 1:
+                        (a, c_), (b_, e_) = [(r[1] - r[0], r[2] - r[0]) for r in nodes]
+                        jscale = abs(a * e_) + abs(c_ * b_)
+                    else:
+                        jscale = max(abs(v) for v in coeffs)
+                    in_budget = exact_budget(nodes, d)
+                    clear = in_budget and cert[1] >= Fr(1, 2 ** 20) * jscale
+                    res.count(("placed-claim", str(jkw)), nontrivial=False,
+                              placed_claim="clear-margin" if clear else ("no-claim:thin-margin" if in_budget else "no-claim:outside-bit-budget"))
+                    if clear and outcome == "invalid" and cert[0] == "pos":
+                        res.failure("invalid-but-jacobian-positive:placed-lattice-net", "Triangle.is_valid = False (degree %d, %s) although det J is computed "
+                                    "exactly from this lattice net and det J >= %.6g > 0 on the whole closed triangle (largest Bernstein coefficient %.6g; "
+                                    "largest coordinate %.6g)" % (d, kw["family"], float(cert[1]), float(jscale), float(size2) ** 0.5), rc)
                 if outcome == "undecided" and cert[0] in ("pos", "neg") and cert[2] <= 3 and cert[1] >= Fr(1, 2 ** 20) * size2:
                     res.failure("undecided-with-clear-margin", "polynomial_sign gave up although the certificate is reached after %d subdivisions with margin %.3g" %
                                 (cert[2], float(cert[1])), rc)
+                elif placed and outcome == "undecided" and cert[0] in ("pos", "neg") and cert[2] <= 3 and clear:
+                    res.failure("undecided-with-clear-margin:placed-lattice-net", "polynomial_sign gave up (degree %d, %s) although det J is computed exactly "
+                                "from this lattice net and the certificate is reached after %d subdivisions with margin %.6g (largest Bernstein coefficient %.6g)" %
+                                (d, kw["family"], cert[2], float(cert[1]), float(jscale)), rc)
                 # the verdict of DERIVED objects: the four pieces of subdivide() taken from a parent whose verdict has already
                 # been read (a verdict cached on the parent must not leak into objects that are other triangles); each piece is
                 # judged against the exact certificate of ITS OWN control net (as returned, binary64)
